@@ -1,10 +1,10 @@
 package adwire
 
 import (
-	"os"
 	"encoding/json"
 	"fmt"
 	"math/rand"
+	"os"
 	"strings"
 	"sync"
 
@@ -109,6 +109,7 @@ type LitStats struct {
 	FallbackTaken int64 // texts the parser rejects that the real decoder accepted through the old-string fallback
 	BranchDrift   int64 // parser-rejected texts on which the real decoder's accept/reject differs from the model's fast-path transcription
 	ModelOracle   []string
+	ModelOracleN  int64
 	Conform       int64
 }
 
@@ -228,10 +229,11 @@ func runLitCase(c *core.Ctx, st *LitStats, lc LitCase, key []byte, fromModel boo
 		case o.Accepts && lc.Outside:
 			bad = fmt.Sprintf("text %q: model says outside the grammar, full parser accepts", lc.Text)
 		}
-		if bad != "" && len(st.ModelOracle) < 20 {
-			st.ModelOracle = append(st.ModelOracle, bad)
-		} else if bad != "" {
-			st.ModelOracle = append(st.ModelOracle[:20], "...")
+		if bad != "" {
+			st.ModelOracleN++
+			if len(st.ModelOracle) < 20 {
+				st.ModelOracle = append(st.ModelOracle, bad)
+			}
 		}
 	}
 	if !o.Accepts {
@@ -287,9 +289,10 @@ func (st *LitStats) Publish(c *core.Ctx) {
 	c.Set("literal_outside_texts_accepted_by_old_string_fallback", st.FallbackTaken)
 	c.Set("literal_fastpath_transcription_drift", st.BranchDrift)
 	c.Add("traces_validated_against_impl", st.Conform)
-	if len(st.ModelOracle) > 0 {
-		c.Broken("LiteralShortcut.tla disagrees with the full parser on %d+ texts (specification defect), e.g. %s",
-			len(st.ModelOracle), strings.Join(st.ModelOracle[:min(3, len(st.ModelOracle))], "; "))
+	c.Set("literal_model_vs_full_parser_disagreements", st.ModelOracleN)
+	if st.ModelOracleN > 0 {
+		c.Broken("LiteralShortcut.tla disagrees with the full parser on %d texts (specification defect), e.g. %s",
+			st.ModelOracleN, strings.Join(st.ModelOracle[:min(5, len(st.ModelOracle))], "; "))
 	}
 	for _, cls := range []string{"bool", "int", "real", "simpleString", "notLiteral"} {
 		if st.ByClass[cls] == 0 {
